@@ -279,29 +279,23 @@ Lemma pair_mem_cons : forall a b c d l,
 Proof. reflexivity. Qed.
 
 (* with no deleted buffer among them the minishards are closed as before, and
-   all of them get their buffer deleted *)
+   all of them are reported as written *)
 Lemma close_minis_sess_live : forall sk l data dead ml dt,
-  NoDup (akeys l) -> (forall mk, In mk (akeys l) -> pair_mem sk mk dead = false) ->
+  (forall mk, In mk (akeys l) -> pair_mem sk mk dead = false) ->
   close_minis sp l data = Ok (ml, dt) ->
-  exists dead', close_minis_sess sp sk dead l data = (ml, dt, dead', sok) /\
-    (forall a b, pair_mem a b dead' = true -> a = sk \/ pair_mem a b dead = true).
+  exists done, close_minis_sess sp sk dead l data = (ml, dt, done, sok).
 Proof.
-  intros sk l. induction l as [|[mk ms] r IH]; intros data dead ml dt Hnd Hlive H.
-  - cbn in H. injection H as <- <-. exists dead. split; [reflexivity | intros a b Hab; right; exact Hab].
+  intros sk l. induction l as [|[mk ms] r IH]; intros data dead ml dt Hlive H.
+  - cbn in H. injection H as <- <-. exists []. reflexivity.
   - cbn [close_minis close_minis_sess] in *.
     rewrite (Hlive mk (or_introl eq_refl)).
     destruct (ms_close sp ms) as [ms1 res]. destruct res as [[]| | | | | |]; try discriminate. cbn [bind] in H.
     destruct (set_offset ms1 (lenN data)) as [ms2| | | | | |]; try discriminate. cbn [bind] in H.
     destruct (close_minis sp r (data ++ ms_data ms1)) as [[rest d]| | | | | |] eqn:Er; try discriminate.
     cbn [bind] in H. injection H as <- <-.
-    inversion Hnd as [|? ? Hn Hr]; subst.
-    destruct (IH (data ++ ms_data ms1) ((sk, mk) :: dead) rest d Hr) as (dead' & Ec & Hd'); [|exact Er|].
-    + intros mk' Hin. rewrite pair_mem_cons, N.eqb_refl. cbn [andb].
-      destruct (N.eqb_spec mk mk') as [->|]; [contradiction|]. cbn [orb]. apply Hlive. right. exact Hin.
-    + rewrite Ec. exists dead'. split; [reflexivity|].
-      intros a b Hab. destruct (Hd' a b Hab) as [->|Hp]; [left; reflexivity|].
-      rewrite pair_mem_cons in Hp. apply orb_prop in Hp. destruct Hp as [Hp|Hp]; [|right; exact Hp].
-      apply andb_prop in Hp. destruct Hp as [Hp _]. apply N.eqb_eq in Hp. left. congruence.
+    destruct (IH (data ++ ms_data ms1) dead rest d) as (done & Ec); [|exact Er|].
+    + intros mk' Hin. apply Hlive. right. exact Hin.
+    + rewrite Ec. exists (mk :: done). reflexivity.
 Qed.
 
 (* every shard written by a valid sequence of stores is dirty and closes to
@@ -357,10 +351,16 @@ Proof.
       destruct (close_minis sp (sort_by_key (sh_minis sh)) []) as [[ml dt]| | | | | |]; try discriminate.
       exists ml, dt. reflexivity. }
     destruct Hcm as (ml & dt & Hcm).
-    destruct (sort_keys_lookup (sh_minis sh) Hndm) as [Kk _].
-    destruct (close_minis_sess_live sk (sort_by_key (sh_minis sh)) [] (ws_dead ws) ml dt) as (dead' & Ec & Hdead');
-      [rewrite Kk; apply sorted_nodup, sort_set_sorted | intros mk _; apply Hlive; left; reflexivity | exact Hcm |].
+    destruct (close_minis_sess_live sk (sort_by_key (sh_minis sh)) [] (ws_dead ws) ml dt) as (done & Ec);
+      [intros mk _; apply Hlive; left; reflexivity | exact Hcm |].
     rewrite Ec, Hsc.
+    set (dead' := map (fun mk => (sk, mk)) done ++ ws_dead ws).
+    assert (Hdead' : forall a b, pair_mem a b dead' = true -> a = sk \/ pair_mem a b (ws_dead ws) = true).
+    { intros a b Hab. unfold dead', pair_mem in Hab. rewrite existsb_app in Hab. apply orb_prop in Hab.
+      destruct Hab as [Hab|Hab]; [|right; exact Hab].
+      apply existsb_exists in Hab. destruct Hab as (x & Hx & Ex). apply in_map_iff in Hx.
+      destruct Hx as (mk0 & <- & _). cbn [fst snd] in Ex. apply andb_prop in Ex. destruct Ex as [Ex _].
+      apply N.eqb_eq in Ex. left. congruence. }
     set (ws1 := {| ws_v := ws_v ws; ws_sp := sp; ws_scale := aset sk {| sh_minis := ml; sh_dirty := false |} (ws_scale ws);
                    ws_order := ws_order ws; ws_dead := dead' |}).
     destruct (IH ws1 (dwrite (shard_file_name sp sk) (shard_bytes sp enc ienc (desc_of sp cms sk)) d) eq_refl Hr)
